@@ -32,14 +32,17 @@ pub struct Case {
     /// request evaluated by the independent specification in the driver, and the check of the
     /// implementation's output against the specification's answer
     pub spec: Option<(String, fn(&str, &str) -> Option<(String, String)>)>,
+    /// a second model request bounding an uncertainty of the run (measured time intervals): the case
+    /// is compared only when both model answers coincide, otherwise it is counted inconclusive
+    pub alt: Option<String>,
 }
 
 impl Case {
     pub fn new(op: String, impl_out: String) -> Self {
-        Case { op, impl_out, proj: Proj::Exact, oracle_fail: None, nontrivial: true, tags: vec![], spec: None }
+        Case { op, impl_out, proj: Proj::Exact, oracle_fail: None, nontrivial: true, tags: vec![], spec: None, alt: None }
     }
     pub fn oracle_only() -> Self {
-        Case { op: String::new(), impl_out: String::new(), proj: Proj::None, oracle_fail: None, nontrivial: true, tags: vec![], spec: None }
+        Case { op: String::new(), impl_out: String::new(), proj: Proj::None, oracle_fail: None, nontrivial: true, tags: vec![], spec: None, alt: None }
     }
     pub fn tag(mut self, t: &str) -> Self {
         self.tags.push(t.to_string());
@@ -63,6 +66,17 @@ impl Case {
         }
         self
     }
+}
+
+/// the implementation call in progress (label, start), watched for hangs by `main`
+pub static CURRENT: std::sync::Mutex<Option<(String, std::time::Instant)>> = std::sync::Mutex::new(None);
+
+/// announce the input about to be given to the implementation
+pub fn watch(label: &str) {
+    *CURRENT.lock().unwrap() = Some((label.to_string(), std::time::Instant::now()));
+}
+pub fn watch_clear() {
+    *CURRENT.lock().unwrap() = None;
 }
 
 /// run `f`, mapping a panic to the string "panic"
@@ -157,10 +171,21 @@ pub fn evaluate(property: &str, driver: &str, cases: Vec<Case>) -> Report {
         oracle_failures: vec![],
         extra: BTreeMap::new(),
     };
+    let aidx: Vec<usize> = cases.iter().enumerate().filter(|(_, c)| c.alt.is_some()).map(|(i, _)| i).collect();
+    let aops: Vec<&str> = aidx.iter().map(|i| cases[*i].alt.as_ref().unwrap().as_str()).collect();
+    let aout = run_driver(driver, &aops);
+    let alt_of: std::collections::HashMap<usize, &String> = aidx.iter().copied().zip(aout.iter()).collect();
+    let mut inconclusive = 0usize;
     let mut seen: HashSet<u64> = HashSet::new();
     for (k, i) in idxs.iter().enumerate() {
         let c = &cases[*i];
         let m = &model[k];
+        if let Some(a) = alt_of.get(i) {
+            if *a != m {
+                inconclusive += 1;
+                continue;
+            }
+        }
         let same = match c.proj {
             Proj::Exact => *m == c.impl_out,
             Proj::Class => class_of(m) == class_of(&c.impl_out),
@@ -171,6 +196,7 @@ pub fn evaluate(property: &str, driver: &str, cases: Vec<Case>) -> Report {
             rep.disagreements.push((*i, c.op.clone(), c.impl_out.clone(), m.clone()));
         }
     }
+    rep.extra.insert("inconclusive".to_string(), J::Int(inconclusive as i64));
     // the specification's verdict on the implementation's output
     let sidx: Vec<usize> = cases.iter().enumerate().filter(|(_, c)| c.spec.is_some()).map(|(i, _)| i).collect();
     let sops: Vec<&str> = sidx.iter().map(|i| cases[*i].spec.as_ref().unwrap().0.as_str()).collect();
